@@ -214,3 +214,26 @@ Theorem C01_bilinear_rules_are_adjoints :
       /\ length (Bilinear.bil K k0 kadd kmul no S A B) = no.
 Proof. exact Bilinear.bilinear_rules_adjoint. Qed.
 Print Assumptions C01_bilinear_rules_are_adjoints.
+
+(* multilinear primitives (einsum with any number of operands, chained products): for every list of structure constants and
+   every operand position the reverse rule is the adjoint of the partial map, in that operand's space *)
+From AG Require Import Multilinear.
+Theorem C01_multilinear_rules_are_adjoints :
+  forall (K : Type) (k0 k1 : K) (kadd kmul ksub : K -> K -> K) (kopp : K -> K),
+    ring_theory k0 k1 kadd kmul ksub kopp eq ->
+    forall k nk no S As g,
+      (k < length As)%nat -> List.Forall (Multilinear.in_bounds K k nk no (length As)) S ->
+      length (nth k As nil) = nk -> length g = no ->
+      dot K k0 kadd kmul g (mul K k0 k1 kadd kmul no S As) = dot K k0 kadd kmul (mvjp K k0 k1 kadd kmul k nk S g As) (nth k As nil)
+      /\ length (mvjp K k0 k1 kadd kmul k nk S g As) = nk /\ length (mul K k0 k1 kadd kmul no S As) = no.
+Proof. exact multilinear_rule_adjoint. Qed.
+Print Assumptions C01_multilinear_rules_are_adjoints.
+
+(* the step lists with which the broadcasting theorems above are instantiated are the loops of numpy_vjps.unbroadcast, as the
+   translator reads them off the source on this run (coq/gen/GenBroadcast.v) *)
+From AG Require Import Run01 BroadcastTie.
+From AGGen Require Import GenBroadcast.
+Theorem C01_unbroadcast_model_follows_source :
+  forall ts os, steps_of ts os = (let '(ss, s) := gen_lead_steps (length os - length ts) os in ss ++ gen_ax_steps 1 ts s).
+Proof. exact steps_of_follow_source. Qed.
+Print Assumptions C01_unbroadcast_model_follows_source.
